@@ -173,6 +173,10 @@ def _same_outcome(ctx, case, what, op, e, l, w):
         # array that happens to get through a different internal path is not a counterexample
         ctx.count("lazy_succeeds_where_eager_raises_(not_asserted)")
         return True
+    if e.kind == "value" and isinstance(e.value, str) and e.value.startswith("<unreadable"):
+        # the materialised array's own result is an invalid layout (C11's business): nothing to compare with
+        ctx.count("eager_result_unreadable_(not_compared)")
+        return True
     if e.kind != l.kind:
         ctx.violation("lazy-outcome-differs", {"op": ops_slim(op), "when": what, "eager": e.brief(), "lazy": l.brief(),
                                                "policy": case["policy"], "path": case["path"],
